@@ -43,6 +43,7 @@ type LogSpec struct {
 	Origin   string `json:"origin"`
 	KeyLabel string `json:"key"`      // key material label; equal labels share a key
 	KeyName  string `json:"key_name"` // note key name
+	ECDSA    bool   `json:"ecdsa,omitempty"` // ECDSA P-256 key instead of Ed25519
 }
 
 // WKSpec is one witness signing key.
@@ -176,6 +177,11 @@ func NewEnv(c *HistCase) *Env {
 		e.Branches = append(e.Branches, e.Branches[p].ForkAt(f.At, i))
 	}
 	for _, l := range c.Logs {
+		if l.ECDSA {
+			e.LogKeys = append(e.LogKeys, NewECDSAKey(l.KeyName, l.KeyLabel))
+			e.LogIDs = append(e.LogIDs, log.ID(l.Origin))
+			continue
+		}
 		e.LogKeys = append(e.LogKeys, NewKey(l.KeyName, l.KeyLabel))
 		e.LogIDs = append(e.LogIDs, log.ID(l.Origin))
 	}
@@ -674,8 +680,12 @@ func (e *Env) Resolve(idx int, op Op, held Held) Req {
 		case cs.Signer == -2:
 			signKey, signLabel = NewKey("stranger", "stranger"), "stranger"
 			if r.LogIdx >= 0 {
-				// same name as the log's key, different material
-				signKey = NewKey(e.LogKeys[r.LogIdx].Name, "stranger")
+				// same name as the log's key, different material (of the same key type)
+				if e.LogKeys[r.LogIdx].EC != nil {
+					signKey = NewECDSAKey(e.LogKeys[r.LogIdx].Name, "stranger")
+				} else {
+					signKey = NewKey(e.LogKeys[r.LogIdx].Name, "stranger")
+				}
 			}
 		case cs.Signer == -3:
 			signKey = nil
@@ -756,7 +766,7 @@ func (e *Env) Resolve(idx int, op Op, held Held) Req {
 			}
 		}
 		ownKeySigns := r.LogIdx >= 0 && signKey != nil && cs.SignerName == "" &&
-			string(signKey.Pub) == string(e.LogKeys[r.LogIdx].Pub) && signKey.Name == e.LogKeys[r.LogIdx].Name
+			signKey.SameMaterial(e.LogKeys[r.LogIdx]) && signKey.Name == e.LogKeys[r.LogIdx].Name
 		r.Authentic = ownKeySigns && origin == ownOrigin && origin != "" && noteTextOK(text)
 		_ = forged
 		if cs.Mut != nil {
